@@ -434,6 +434,19 @@ impl<'tcx> Cx<'tcx> {
                 let t = tcx.type_of(it.def_id).skip_binder();
                 o.push(("ty", self.ty(t)));
             }
+            // the value of an associated constant of an impl without parameters (data stated per type and read through
+            // `Self::NAME` in a provided method of the trait)
+            if matches!(it.kind, ty::AssocKind::Const { .. }) && tcx.generics_of(did).count() == 0 && tcx.generics_of(it.def_id).own_params.is_empty() {
+                if let Ok(val) = tcx.const_eval_poly(it.def_id) {
+                    if let Some(s) = val.try_to_scalar_int() {
+                        o.push(("int", J::s(format!("{}", s.to_bits_unchecked()))));
+                    } else if let Some(bytes) = slice_bytes(tcx, &val) {
+                        if let Ok(st) = std::str::from_utf8(bytes) {
+                            o.push(("str", J::s(st)));
+                        }
+                    }
+                }
+            }
             items.push(J::Obj(o));
         }
         let sp = tcx.def_span(did);
